@@ -12,7 +12,7 @@ DER (CER) encoding must reproduce it.  No reference encoder is involved.
 import copy
 import random
 
-from simkit import plan as P, universe as U, world as W
+from simkit import corrupt, plan as P, universe as U, world as W
 from checks import common
 
 ID = 'C04'
@@ -20,7 +20,7 @@ LEVEL = 'exploration'
 TIERS = {"quick": 30000, "thorough": 1200000}
 BUDGET = {'quick': 150, 'thorough': 1500}
 RULE = ('seeded plans: universe descriptor + one abstract value + 2-5 replicas, each with a construction route '
-        '(canonical | permuted order | explicit/implicit DEFAULTs | native Python arguments | decode of a BER form | clone of another '
+        '(canonical | permuted order | explicit/implicit DEFAULTs | native Python arguments | decode of a BER form the encoder produces, incl. REAL bases 8/16 | decode of an equivalent BER variant: long-form lengths, indefinite lengths, constructed strings, other TRUE octets | clone of another '
         'route) and 0-6 interleaved read-only operations; non-trivial: at least two replicas reached the value by different routes and '
         'both encoders accepted it; distinct = distinct plan digests among those')
 ASSUMPTIONS = [
@@ -33,7 +33,7 @@ STUB = ['replica histories (construction routes and read-only operations)']
 
 ROUTES = ['canonical', 'permuted', 'permuted', 'defaults-explicit', 'defaults-implicit', 'native-args',
           'decoded:ber', 'decoded:ber-indef', 'decoded:ber-chunk:2', 'decoded:ber-indef-chunk:3', 'decoded:der', 'decoded:cer',
-          'clone']
+          'decoded:variant', 'decoded:variant', 'decoded:realbase', 'clone']
 READS = ['der', 'cer', 'ber', 'prettyPrint', 'str', 'iter', 'eq', 'len', 'in', 'isValue', 'values', 'getitem', 'getitem', 'items', 'deep_read']
 
 
@@ -106,6 +106,18 @@ def gen_plan(r, index, tier):
                'reads': [[r.choice(READS), r.randrange(4)] for _ in range(r.choice([0, 0, 1, 3, 6]))]}
         if route == 'clone':
             rep['of'] = r.choice(['canonical', 'permuted', 'decoded:ber'])
+        if route == 'decoded:variant':
+            # another BER form of the same value: framing edits X.690 declares equivalent
+            rep['base'] = r.choice(['ber', 'ber', 'ber-indef'] + ([] if chars else ['ber-chunk:2']))
+            rep['variant'] = corrupt.gen_variant_ops(r)
+        if route == 'decoded:realbase':
+            if U.has_kind(desc, ('REAL',)):
+                rep['base'] = r.choice(['ber', 'ber-indef'])
+                rep['realbase'] = r.choice([2, 8, 16])
+            else:
+                rep['route'] = 'decoded:variant'
+                rep['base'] = 'ber'
+                rep['variant'] = corrupt.gen_variant_ops(r)
         reps.append(rep)
     if all(x['route'] == reps[0]['route'] for x in reps):
         reps[0]['route'] = 'canonical'
@@ -194,14 +206,44 @@ def build_route(schema, desc, v, route, rnd):
     raise ValueError(k)
 
 
+def _set_real_base(obj, base, depth=0):
+    """The BER encoder's documented per-value hint for binary REALs (univ.Real.binEncBase)."""
+    univ = U.p.univ
+    if depth > 12:
+        return
+    if isinstance(obj, univ.Real):
+        obj.binEncBase = base
+    elif isinstance(obj, univ.Choice):
+        try:
+            _set_real_base(obj.getComponent(), base, depth + 1)
+        except Exception:
+            pass
+    elif isinstance(obj, (univ.Sequence, univ.Set)):
+        for i in range(len(obj.componentType) or len(obj)):
+            c = obj.getComponentByPosition(i, default=None, instantiate=False)
+            if c is not None:
+                _set_real_base(c, base, depth + 1)
+    elif isinstance(obj, (univ.SequenceOf, univ.SetOf)):
+        for i in range(len(obj)):
+            c = obj.getComponentByPosition(i, default=None, instantiate=False)
+            if c is not None:
+                _set_real_base(c, base, depth + 1)
+
+
 def make_replica(schema, desc, v, rep):
     route = rep['route']
     rnd = random.Random(rep['perm'])
     if route.startswith('decoded:'):
         codec = route.split(':', 1)[1]
+        if codec in ('variant', 'realbase'):
+            codec = rep.get('base', 'ber')
         enc, dec, opts = U.codec(codec)
         base_obj = U.build_value(schema, desc, v)
+        if rep.get('realbase'):
+            _set_real_base(base_obj, rep['realbase'])
         data = enc.encode(base_obj, **opts)
+        if rep.get('variant'):
+            data = corrupt.apply_variant(data, rep['variant'])
         obj, rest = dec.decode(data, asn1Spec=schema)
         if rest:
             raise W.Skip('decoded-route-remainder')
@@ -345,7 +387,11 @@ def execute(plan):
             ders.append((ri, rep['route'], d0))
             cers.append((ri, rep['route'], c0))
             objs.append(obj)
-            ctr['route.%s' % rep['route'].split(':')[0]] = ctr.get('route.%s' % rep['route'].split(':')[0], 0) + 1
+            rk = 'route.%s' % ('-'.join(rep['route'].split(':')[:2]) if rep['route'].split(':')[-1] in ('variant', 'realbase')
+                               else rep['route'].split(':')[0])
+            ctr[rk] = ctr.get(rk, 0) + 1
+            for op_ in rep.get('variant') or ():
+                ctr['variant.%s' % op_[0]] = ctr.get('variant.%s' % op_[0], 0) + 1
         if len(ders) < 2:
             return common.skip_result('fewer-than-two-replicas')
         for name, encs in (('der', ders), ('cer', cers)):
@@ -405,6 +451,11 @@ def shrink_candidates(plan):
             c = copy.deepcopy(plan)
             c['replicas'][i]['route'] = 'canonical'
             yield c
+        if len(rep.get('variant') or []) > 1:
+            for j in range(len(rep['variant'])):
+                c = copy.deepcopy(plan)
+                del c['replicas'][i]['variant'][j]
+                yield c
     for nd, nvs in common.shrink_desc_values(plan['desc'], [plan['value']]):
         c = copy.deepcopy(plan)
         c['desc'] = nd
